@@ -233,6 +233,30 @@ theorem step_zero_load_defined {C : Cfg K} {di hi : Nat} {rr wr : K} {scs : List
     rw [this] at hf
     exact ⟨(Prod.mk.inj hf).1, (Prod.mk.inj hf).2⟩
 
+/-- **`step_schedule_lookups`** (C04 "consequently ..." at the concrete per-building block; round 8). In every pass
+    that returns, EVERY building - whether the hour carries internal load or not - is handed the entries of its
+    schedule set at the step's day type `di` and hour `hi`: hot water, gas, both set points (day and night), and the
+    load fractions of that same hour. No hour is skipped and none is remembered from an earlier step. -/
+theorem step_schedule_lookups {C : Cfg K} {di hi : Nat} {rr wr : K} {scs : List (Sched K)}
+    {bs bs' : List (Bld K)} (h : glueAll C di hi rr wr scs bs = .ok bs') :
+    ∀ b' ∈ bs', ∃ sc : Sched K, ∃ cool heat fe fl fo fs fg : K,
+      look sc.cool di hi = .ok cool ∧ look sc.heat di hi = .ok heat ∧ look sc.elec di hi = .ok fe ∧
+      look sc.light di hi = .ok fl ∧ look sc.occ di hi = .ok fo ∧ look sc.swh di hi = .ok fs ∧
+      look sc.gas di hi = .ok fg ∧
+      b'.swh = sc.vSwh * fs ∧ b'.gas = sc.qGas * fg ∧ b'.vent = sc.vent ∧
+      b'.coolSetDay = cool + 273.15 ∧ b'.coolSetNight = cool + 273.15 ∧
+      b'.heatSetDay = heat + 273.15 ∧ b'.heatSetNight = heat + 273.15 ∧
+      b'.elec = sc.qElec * fe ∧ b'.light = sc.qLight * fl ∧ b'.nocc = sc.nOcc * fo := by
+  intro b' hb
+  obtain ⟨sc, b, hg⟩ := glueAll_mem h b' hb
+  unfold glueBld at hg
+  simp only [bind_ok, ensure_ok] at hg
+  obtain ⟨cool, hc, heat, hh, fe, he, fl, hl, fo, ho, fs, hs, _, _, fg, hgs, _, _, _, _, twx, _, twi, _,
+    trx, _, tri, _, hfin⟩ := hg
+  cases hfin
+  exact ⟨sc, cool, heat, fe, fl, fo, fs, fg, hc, hh, he, hl, ho, hs, hgs, rfl, rfl, rfl, rfl, rfl, rfl, rfl,
+    rfl, rfl, rfl⟩
+
 /-! ## C14 at step level -/
 
 /-- **`step_hvac_never_both`.** In every pass that returns, for EVERY building: `BEMCalc` ran, and
